@@ -2088,3 +2088,29 @@ mod tests {
         assert_eq!(graph.try_add_node(()), Err(MatrixError::NodeIxLimit));
     }
 }
+
+/// Verification hooks (feature `verif_hooks`): wrappers of the private position/extension kernels.
+#[cfg(feature = "verif_hooks")]
+pub mod verif_hooks {
+    use alloc::vec::Vec;
+    pub fn to_flat_square_matrix_position(row: usize, column: usize, width: usize) -> usize {
+        super::to_flat_square_matrix_position(row, column, width)
+    }
+    pub fn to_lower_triangular_matrix_position(row: usize, column: usize) -> usize {
+        super::to_lower_triangular_matrix_position(row, column)
+    }
+    pub fn extend_flat_square_matrix<T: Default>(
+        node_adjacencies: &mut Vec<T>,
+        old_node_capacity: usize,
+        new_node_capacity: usize,
+        exact: bool,
+    ) -> usize {
+        super::extend_flat_square_matrix(node_adjacencies, old_node_capacity, new_node_capacity, exact)
+    }
+    pub fn extend_lower_triangular_matrix<T: Default>(
+        node_adjacencies: &mut Vec<T>,
+        new_capacity: usize,
+    ) -> usize {
+        super::extend_lower_triangular_matrix(node_adjacencies, new_capacity)
+    }
+}
